@@ -38,10 +38,19 @@ def inventory():
 
 def make_inventory(prog):
     out = {}
+
+    def nested(f, acc):
+        for g in f.nested.values():
+            acc.append(g.qual)
+            nested(g, acc)
     for rel, m in prog.modules.items():
         names = sorted(m.funcs)
+        for f in m.funcs.values():
+            nested(f, names)
         for c in m.classes.values():
             names += ['%s.%s' % (c.name, n) for n in sorted(c.methods)]
+            for f in c.methods.values():
+                nested(f, names)
         out[rel] = names
     return out
 
@@ -198,6 +207,8 @@ class Inliner:
         names = self.known[rel]
         if finfo.qual in names:
             return False
+        if finfo.parent is not None:
+            return True
         # a method that exists under this name anywhere in the package's
         # reference tree (moved between base and subclass) is not new
         if finfo.cls is not None:
@@ -209,9 +220,21 @@ class Inliner:
 
     def callee(self, finfo, call):
         f = self.prog.resolve_call(finfo, call)
-        if f is None or f is finfo or f.parent is not None or \
-                not self.is_new(f):
+        if f is None or f is finfo or not self.is_new(f):
             return None
+        if f.parent is not None:
+            # a nested closure: only when it is a local function of the
+            # caller itself which is only ever called (never handed out as a
+            # value: callbacks run later and elsewhere) and which does not
+            # re-bind names of the enclosing scope
+            if f.parent is not finfo or not isinstance(call.func, ast.Name):
+                return None
+            for x in walk(finfo.node):
+                if isinstance(x, ast.Name) and x.id == f.name and \
+                        isinstance(x.ctx, ast.Load):
+                    if not any(isinstance(c, ast.Call) and c.func is x
+                               for c in walk(finfo.node)):
+                        return None
         fn = f.node
         a = fn.args
         if a.vararg or a.kwarg or a.kwonlyargs or a.posonlyargs:
@@ -239,7 +262,7 @@ class Inliner:
         is_cls = 'classmethod' in decos
         args = list(call.args)
         mapping = {}
-        if f.cls is not None and not is_static:
+        if f.cls is not None and not is_static and f.parent is None:
             if not params:
                 return None
             # receiver
@@ -512,6 +535,29 @@ class Inliner:
                     out.append(s)
             return out
         finfo.node.body = do_block(finfo.node.body)
+        if changed and finfo.nested:
+            # local functions whose every call was inlined are dead
+            used = {x.id for x in walk(finfo.node)
+                    if isinstance(x, ast.Name) and isinstance(x.ctx, ast.Load)}
+
+            def prune(stmts):
+                out = []
+                for s in stmts:
+                    if isinstance(s, (ast.FunctionDef, ast.AsyncFunctionDef)) \
+                            and s.name in finfo.nested and \
+                            s.name not in used and \
+                            self.is_new(finfo.nested[s.name]):
+                        continue
+                    for fld in ('body', 'orelse', 'finalbody'):
+                        b = getattr(s, fld, None)
+                        if isinstance(b, list) and b and \
+                                isinstance(b[0], ast.stmt) and \
+                                not isinstance(s, (ast.FunctionDef,
+                                                   ast.ClassDef)):
+                            setattr(s, fld, prune(b) or [ast.Pass()])
+                    out.append(s)
+                return out
+            finfo.node.body = prune(finfo.node.body) or [ast.Pass()]
         return changed
 
 
